@@ -1,1 +1,179 @@
-//! Independent reference codec for RFC 9000 §16–§19 / RFC 9221 — not built yet.
+//! refquic — an independent reference codec for the QUIC wire format.
+//!
+//! Written only from RFC 9000 §16 (variable-length integers), §17 (packet headers),
+//! §18 (transport parameters), §19 (frames), Appendix A.2/A.3 (packet-number
+//! truncation) and RFC 9221 (DATAGRAM). It does not depend on, and shares no code with,
+//! s2n-quic / s2n-codec: it is the *oracle* of the differential checks and the decoder the
+//! end-to-end recorder uses for every cleartext payload on the wire.
+//!
+//! Design rules
+//! * every decoder takes a plain `&[u8]`, is total (returns `Err`, never panics, never
+//!   allocates more than the input is long) and reports how many bytes it consumed;
+//! * *wire well-formedness* and *semantic validity* are kept apart:
+//!   `parse_*` functions accept everything the RFC grammar can represent and return
+//!   [`RefError::Malformed`] otherwise; rules of the kind "a receiver MUST treat the value
+//!   … as an error" are reported by `validate()` / the `*_strict` functions as
+//!   [`RefError::Invalid`] with an [`InvalidKind`], so a caller can decide whether the
+//!   code under test is allowed to defer the rule to a later layer;
+//! * encoders are minimal by default; `*_opts` variants take a list of "width bumps" so
+//!   generators can produce the non-minimal varint encodings §16 permits.
+
+pub mod frame;
+pub mod packet;
+pub mod params;
+pub mod varint;
+
+pub use frame::{
+    encode_frame, encode_frame_opts, encode_frames, parse_frame, parse_frame_ext,
+    parse_frame_strict, parse_frames, parse_frames_ext, parse_frames_strict, EncodeOpts,
+    ParsedFrame, RefEcn, RefFrame,
+};
+pub use packet::{
+    decode_packet_number, encode_header, encode_packet_number, encode_packet_number_len,
+    parse_datagram_headers, parse_datagram_headers_ext, parse_header, RefHeader, RefPacketType,
+    QUIC_V1,
+};
+pub use params::{
+    encode_transport_params, encode_transport_params_opts, parse_transport_params,
+    RefParams, RefPreferredAddress, Role,
+};
+pub use varint::{
+    decode_varint, encode_varint, encode_varint_width, is_minimal, varint_len, VARINT_MAX,
+};
+
+use serde::{Deserialize, Serialize};
+
+/// Why a byte string is not in the RFC grammar at all.
+#[derive(Debug, Clone, Copy, PartialEq, Eq, Hash, Serialize, Deserialize)]
+pub enum MalformedKind {
+    /// the input ends inside a field (or a length field points beyond the input)
+    Truncated,
+    /// nothing to decode
+    Empty,
+    /// §12.4: "An endpoint MUST treat the receipt of a frame of unknown type as a connection
+    /// error of type FRAME_ENCODING_ERROR"
+    UnknownFrameType(u64),
+    /// §17.2/§17.3: the fixed bit is 0 in a packet that is not a Version Negotiation packet
+    FixedBitZero,
+    /// §17.2.1: the list of supported versions is not a whole number of 32-bit words
+    VersionListNotAligned,
+    /// §18: the value of a known transport parameter does not have the format the RFC
+    /// defines for it (integer parameters: exactly one varint; tokens: 16 bytes; flags: empty)
+    ParameterValueFormat(u64),
+}
+
+/// A rule of the RFC about a *well-formed* message that makes it unacceptable.
+#[derive(Debug, Clone, Copy, PartialEq, Eq, Hash, Serialize, Deserialize)]
+pub enum InvalidKind {
+    /// §12.4: frame type not in its shortest encoding ("MAY treat … as PROTOCOL_VIOLATION")
+    NonMinimalFrameType,
+    /// §19.3.1: "If any computed packet number is negative, an endpoint MUST generate a
+    /// connection error of type FRAME_ENCODING_ERROR"
+    AckRangeUnderflow,
+    /// §19.6: offset + length of CRYPTO data exceeds 2^62-1
+    CryptoOffsetOverflow,
+    /// §19.7: "A client MUST treat receipt of a NEW_TOKEN frame with an empty Token field as a
+    /// connection error of type FRAME_ENCODING_ERROR"
+    EmptyNewToken,
+    /// §19.8: "The largest offset delivered on a stream — the sum of the offset and data
+    /// length — cannot exceed 2^62-1"
+    StreamOffsetOverflow,
+    /// §19.11: MAX_STREAMS above 2^60
+    MaxStreamsTooLarge,
+    /// §19.14: STREAMS_BLOCKED above 2^60
+    StreamsBlockedTooLarge,
+    /// §19.15: connection id length < 1 or > 20
+    NewConnectionIdLength,
+    /// §19.15: Retire Prior To greater than Sequence Number
+    RetirePriorToExceedsSequence,
+    /// §17.2: version 1 long header with a connection id longer than 20 bytes
+    ConnectionIdTooLong,
+    /// §17.2.5.2: "A client MUST discard a Retry packet with a zero-length Retry Token field"
+    EmptyRetryToken,
+    /// §17.2.1: Version Negotiation without any version (nothing to negotiate)
+    EmptyVersionList,
+}
+
+#[derive(Debug, Clone, Copy, PartialEq, Eq, Hash, Serialize, Deserialize)]
+pub enum RefError {
+    Malformed(MalformedKind),
+    Invalid(InvalidKind),
+}
+
+impl RefError {
+    pub const TRUNCATED: RefError = RefError::Malformed(MalformedKind::Truncated);
+
+    pub fn is_malformed(&self) -> bool {
+        matches!(self, RefError::Malformed(_))
+    }
+    pub fn is_invalid(&self) -> bool {
+        matches!(self, RefError::Invalid(_))
+    }
+}
+
+impl core::fmt::Display for RefError {
+    fn fmt(&self, f: &mut core::fmt::Formatter<'_>) -> core::fmt::Result {
+        write!(f, "{self:?}")
+    }
+}
+
+impl std::error::Error for RefError {}
+
+/// Cursor over an input slice; every read is bounds-checked.
+#[derive(Clone, Copy)]
+pub(crate) struct Rd<'a> {
+    pub buf: &'a [u8],
+    pub pos: usize,
+    /// false as soon as one varint was read that was not in its shortest form
+    pub minimal: bool,
+}
+
+impl<'a> Rd<'a> {
+    pub fn new(buf: &'a [u8]) -> Self {
+        Rd { buf, pos: 0, minimal: true }
+    }
+    pub fn remaining(&self) -> usize {
+        self.buf.len() - self.pos
+    }
+    pub fn u8(&mut self) -> Result<u8, RefError> {
+        let b = *self.buf.get(self.pos).ok_or(RefError::TRUNCATED)?;
+        self.pos += 1;
+        Ok(b)
+    }
+    pub fn u16(&mut self) -> Result<u16, RefError> {
+        let b = self.bytes(2)?;
+        Ok(u16::from_be_bytes([b[0], b[1]]))
+    }
+    pub fn u32(&mut self) -> Result<u32, RefError> {
+        let b = self.bytes(4)?;
+        Ok(u32::from_be_bytes([b[0], b[1], b[2], b[3]]))
+    }
+    pub fn bytes(&mut self, n: usize) -> Result<&'a [u8], RefError> {
+        if n > self.remaining() {
+            return Err(RefError::TRUNCATED);
+        }
+        let s = &self.buf[self.pos..self.pos + n];
+        self.pos += n;
+        Ok(s)
+    }
+    /// a byte string whose length is given as a 62-bit integer
+    pub fn bytes_u64(&mut self, n: u64) -> Result<&'a [u8], RefError> {
+        if n > self.remaining() as u64 {
+            return Err(RefError::TRUNCATED);
+        }
+        self.bytes(n as usize)
+    }
+    pub fn rest(&mut self) -> &'a [u8] {
+        let s = &self.buf[self.pos..];
+        self.pos = self.buf.len();
+        s
+    }
+    pub fn varint(&mut self) -> Result<u64, RefError> {
+        let (v, n) = varint::decode_varint(&self.buf[self.pos..])?;
+        if !varint::is_minimal(v, n) {
+            self.minimal = false;
+        }
+        self.pos += n;
+        Ok(v)
+    }
+}
